@@ -24,6 +24,16 @@ claimed = {
              ref="DESIGN.md §5 C11", technique="contract-based deductive verification (bit-vector SMT)"),
  "C15": dict(level="proof", text="FilterFromTo verified through its body inside lemmaC15 for all nil/non-nil combinations: error iff from after to; Contains iff within the inclusive bounds (interface dispatch over the five filter types, each Contains under its own contract); the answer is unchanged after the caller's variables are overwritten.",
              ref="DESIGN.md §5 C15", technique="contract-based deductive verification (integer SMT, dynamic dispatch over the module's filter types)"),
+ "C03": dict(level="proof", text="The code's SemVer pattern (and the pre-release / build sub-patterns used by Valid) is proved language-equal to the semver.org BNF transcribed production by production (regular-language obligations). unmarshalText: err == nil iff non-empty, within the limit, form allowed, in the grammar and all three numbers fit 64 bits; fields equal the decimal values / literal texts of the five captures; zero value + typed error + the right sentinel otherwise; Parse/ParseVersion/ParseTag/DefaultParser/UnmarshalText select the forms. DefaultFormatter/String/StringTag/MarshalText emit [v]major.minor.patch[-pre][+build] exactly. Valid characterised by the two sub-grammars. Gap: the composed statement 'Valid iff the formatted text parses back equal' is not yet a lemma.",
+             ref="DESIGN.md §5 C03", technique="contract-based deductive verification (WP over go/ssa; regexp skeleton with functional-consistency axioms; RegLan equivalence by z3 5.1.0; assumed strconv round-trip axiom)"),
+ "C08": dict(level="proof", text="newSize, New and Bytes proved for all 12 numeric kinds plus derived int and float types (bit-vector + IEEE floating-point SMT, amd64 float-to-integer conversion modelled): result is exactly number x multiplier (multipliers written from the statement) iff that is a non-negative integer below 2^64, the zero-with-any-known-unit rule, error classes; Bytes succeeds iff exactly representable (integers: <= type maximum; floats: significant bits fit the mantissa). Text: unmarshalText proved against the pure-function results of prepareNumber (which is itself proved to yield only digits, for all inputs, with a loop invariant over exact UTF-8 decoding). Gap: the statement's description of which separators prepareNumber ignores is not yet proved (bounded lemma parked).",
+             ref="DESIGN.md §5 C08", technique="contract-based deductive verification (bit-vector/FP SMT per monomorphised instance; loop invariants; pure functions as uninterpreted applications)"),
+ "C13": dict(level="proof", text="Shorten proved to return value x 1024^k == size with k the largest exponent (<= 6) dividing the size (units from the statement's table); DefaultFormatter proved to append exactly: the digits of the value, a separator after every digit whose distance to the end is a multiple of three (none / space / &nbsp; by flags), then the unit; String/PrettyString/PrettyHTML are those renderings. All 2^64 sizes, unbounded prefix.",
+             ref="DESIGN.md §5 C13", technique="contract-based deductive verification (integer SMT; exact unrolling of the digit loop with unwinding obligation; structural comparison of append chains)"),
+ "C14": dict(level="proof", text="Every comparison returns -1, 0 or 1; equal core and equal pre-release give 0; Ver.Compare never reads Build (syntactic frame check) and its result is a function of core and pre-release only; Latest returns v unless Compare is -1; the six string helpers return an error exactly when either text is rejected for their form and otherwise the value-level result; Next* panic iff the component is 2^64-1 and their results are plain releases comparing +1 against the receiver. Gap: antisymmetry for equal-length pre-releases is not proved.",
+             ref="DESIGN.md §5 C14", technique="contract-based deductive verification (loop invariant for the byte scan; pure functions as uninterpreted applications with extensionality; bit-vector contracts for Next*)"),
+ "C16": dict(level="proof", text="For each of the five DefaultFormatters and ID.URN: the result's first len(buf) bytes equal the caller's bytes at entry, the appended bytes are the format-specific content function (independent of buf), the result is the same backing region or fresh memory, and no byte of pre-existing memory outside buf[len(buf):cap(buf)] changes (frame obligation), for every prefix length, capacity and flag word. Date: content claimed for years 0..999999999.",
+             ref="DESIGN.md §5 C16", technique="contract-based deductive verification (region-based byte heap, append modelled exactly, frame obligations; loop invariants for roman)"),
  "C19": dict(level="proof", text="Proved for all pairs of 63-bit draws: version 4 / variant 10; lock discipline (random only read with randomMutex held, released on every exit) as ghost-state obligations. 'No duplicate within a run' is probabilistic / whole-history and is not decided (stated gap).",
              ref="DESIGN.md §5 C19, §7", technique="contract-based deductive verification (bit-vector postcondition, ghost lock-ownership obligations)"),
 }
